@@ -8,7 +8,16 @@ use rayon::prelude::*;
 use crate::model::{Content, State};
 
 pub fn write_file(key: &String, content: &Content, to: &PathBuf) -> std::io::Result<()> {
-    fs::write(to.clone().join(format!("{}.md", key)), content.as_str())
+    // never truncate the note itself: write a sibling and atomically move it into place
+    let path = to.clone().join(format!("{}.md", key));
+    let temporary = to.clone().join(format!("{}.md.tmp", key));
+
+    if let Err(error) = fs::write(&temporary, content.as_str()) {
+        let _ = fs::remove_file(&temporary);
+        return Err(error);
+    }
+
+    fs::rename(&temporary, &path)
 }
 
 pub fn new_for_path(base_path: &PathBuf) -> State {
